@@ -13,6 +13,12 @@ C31 driver.  All byte strings travel as lowercase hex (`-` = empty).
                               → bk=<hex> os=<ok:hex|E:…> loc=<hex of "/"+segments>
   jail <~ | url,url…> <url>   _pre_open_hook                           → T | F
 
+  canon <p> | mild <p> | nurl <p>   isCanon / isMild / normalisedUrl        → T | F
+  jurl <rootdir> <base|~> <tbl> <pfx> <~ | clonerel,clonerel…> <p> <rel>
+                              a transport built from the URL pfx++p, jail = transports cloned at the
+                              given relpaths (`-` = the root) or none (`~`)
+                              → norm=<T|F> base=<hex> allowed=<T|F> bk=<hex> os=<ok:hex|E:…> loc=<hex|E:…>
+
   tbl = name:home,name:home (hex each, `-` = no entry at all)
 -/
 namespace BreezyVerif.C31
@@ -74,6 +80,31 @@ def handle : List String → String
         | .error e => e.toString
       s!"bk={toHex bk} os={showR os} loc={loc}"
     | _, _, _, _, _ => "bad-op"
+  | ["canon", p] => match fromHex p with
+    | some p => showBool (isCanon p)
+    | none => "bad-op"
+  | ["mild", p] => match fromHex p with
+    | some p => showBool (isMild p)
+    | none => "bad-op"
+  | ["nurl", p] => match fromHex p with
+    | some p => showBool (normalisedUrl p)
+    | none => "bad-op"
+  | ["jurl", rootDir, base, tbl, pfx, jail, p, rel] =>
+    match fromHex rootDir, parseBase base, parseTbl tbl, fromHex pfx, fromHex p, fromHex rel with
+    | some rootDir, some base, some tbl, some pfx, some p, some rel =>
+      let jl : Option (Option (List Bytes)) :=
+        if jail == "~" then some none
+        else ((splitList jail).mapM fromHex).map (fun l => some (l.map fun r => pfx ++ cloneBase (combine [] r)))
+      match jl with
+      | none => "bad-op"
+      | some allowed =>
+        let cfg := mkCfg rootDir base tbl
+        let bk := urlBackingRel cfg p rel
+        let loc := match urlLocate cfg p rel with
+          | .ok l => toHex (absPath l)
+          | .error e => e.toString
+        s!"norm={showBool (normalisedUrl p)} base={toHex (urlBase p)} allowed={showBool (jailAllows allowed (pfx ++ urlBase p))} bk={toHex bk} os={showR (osRel bk)} loc={loc}"
+    | _, _, _, _, _, _ => "bad-op"
   | ["jail", allowed, url] =>
     match fromHex url with
     | none => "bad-op"
